@@ -39,7 +39,7 @@ SEnt(n, v, p) == [nm |-> n, val |-> v, p |-> p]
 TN(v) == CASE v.t = "int" -> "Int" [] v.t = "float" -> "Float" [] v.t = "str" -> "String"
            [] v.t = "bool" -> "Bool" [] v.t = "null" -> "NULL" [] v.t = "list" -> "List"
            [] v.t = "tuple" -> "Tuple" [] v.t \in {"func", "module"} -> "Func"
-           [] v.t = "thunk" -> "Expression" [] v.t = "sym" -> "Symbol"
+           [] v.t = "thunk" -> "Expression" [] v.t = "sym" -> "Symbol" [] v.t = "con" -> "Constraint"
 
 (* PartialEq for Value *)
 ValEq(m, a, b) == IF Dev(m, "TupleEqUnordered") THEN VEqUnordered(a, b) ELSE VEq(a, b)
@@ -363,6 +363,7 @@ ExecOp(m, f, o) ==   \* f: top frame with ptr already advanced to o
               IN IF Depth(f2) < 1 THEN Fail(SetTop(m, f2), p)           \* "No value on stack for constraint check"
                  ELSE LET v == Peek(f2, 1)
                       IN IF c.t # "con" THEN next(f2)                   \* an example value: checked statically only
+                         ELSE IF c.arms = << >> THEN next(f2)             \* ConstraintVal::check: no arms admit anything
                          ELSE IF ~IsCPrim(v.v) THEN Unmod(m)
                          ELSE IF \E j \in 1..Len(c.arms) : ArmHolds(v.v, c.arms[j]) THEN next(f2)
                          ELSE Fail(SetTop(m, f2), v.p)
